@@ -335,6 +335,18 @@ Definition all_valid_at (now : N) (vs : list (N * N)) : bool := forallb (valid_a
 Definition last_valid_at (now : N) (vs : list (N * N)) : bool :=
   match rev vs with [] => true | v :: _ => valid_at now v end.
 
+(** [verify_identity_attributes] (id/identity_attributes_credentials.rs): the structural checks in
+    front of the sigma-proof verification.  [ncoeff] = number of commitments to the coefficients of
+    the IdCredSec sharing polynomial published in the proof; [threshold] = the revocation threshold
+    claimed in the values (and signed by the identity provider). *)
+Inductive ia_verdict := IAOk | IAFailSignature | IAFailAr | IAFailProof.
+Definition identity_attributes_verdict (ip_matches : bool) (threshold ncoeff : N) (sigma_ok : bool) : ia_verdict :=
+  if negb ip_matches then IAFailSignature
+  else if negb (threshold =? ncoeff) then IAFailAr
+  else if negb sigma_ok then IAFailProof else IAOk.
+(** the weaker test "threshold > ncoeff fails" *)
+Definition threshold_check_gt (threshold ncoeff : N) : bool := negb (ncoeff <? threshold).
+
 (** * Transcripts: labelled byte strings and the two framings *)
 
 Local Open Scope N_scope.
